@@ -14,7 +14,7 @@ import ast
 from z3 import (And, Or, Not, Implies, If, BoolVal, IntVal, ForAll, Exists, Select, Store, IntSort, BoolSort, Function, substitute,
                 MultiPattern, K, is_app, Z3_OP_UNINTERPRETED)
 from .types import *
-from .engine import FreshConst, FRESH_LOG, Unsupported, PV, PRef, PTup, PNone, PMaybe
+from .engine import FreshConst, FRESH_LOG, Unsupported, PV, PRef, PTup, PNone, PMaybe, ZipSeqs
 from .exprs import FullEngine
 from .theory import seq_theory, all_theories
 from . import discharge
@@ -83,7 +83,8 @@ class PEngine(FullEngine):
 
     def trig(self, seq, k, R_at=None):
         pats = []
-        if seq is not None: pats.append(self.th_of(seq).At(seq, k))
+        if isinstance(seq, ZipSeqs): pats += [self.th_of(x).At(x, k) for x in seq]
+        elif seq is not None: pats.append(self.th_of(seq).At(seq, k))
         if R_at is not None: pats.append(R_at)
         return pats
 
